@@ -186,6 +186,56 @@ fn iso_checks<S: Suite>(ctx: &Ctx, pts: &[Pt<S::K>], lams: &[S::K], bound: usize
             },
         );
     }
+    // points over x-values derived from the special constants by a sign or an off-by-one slip: -c, c+1, c-1 for every rational
+    // zero or pole c of the maps (a kernel test written with the wrong sign convention fires at -c)
+    {
+        let field_size = if tables[1].len() > 5 { q().clone() } else { q() * q() };
+        let mut consts: Vec<S::K> = vec![];
+        let mut seed = crate::infra::SplitMix(0xC16C17 ^ tables[0].len() as u64);
+        for t in &tables {
+            let mut rnd = || {
+                let a = seed.next();
+                S::K::from_u64(a | 1).mul(&S::K::from_u64(seed.next() | 1)).add(&pts_x(&pts[(a % pts.len() as u64) as usize]))
+            };
+            for r in crate::polyroots::roots(t, &field_size, &mut rnd) {
+                if !consts.contains(&r) {
+                    consts.push(r);
+                }
+            }
+        }
+        let one = S::K::one();
+        let mut near: Vec<(Pt<S::K>, &'static str)> = vec![];
+        for c in &consts {
+            for (x, cls) in [(c.neg(), "x = -c"), (c.add(&one), "x = c+1"), (c.sub(&one), "x = c-1")] {
+                if let Some(y) = S::sqrt(&ciso.rhs(&x)) {
+                    near.push((Pt::Aff(x.clone(), y.clone()), cls));
+                    near.push((Pt::Aff(x, y.neg()), cls));
+                }
+            }
+        }
+        let nl = lams.len().min(4);
+        let rad = [near.len() as u64, nl as u64];
+        ctx.sweep(
+            &format!("{}.iso_points.near_special_constants", name),
+            crate::infra::space(&rad),
+            |i| {
+                let d = unrank(i, &rad);
+                json!({"point_on_iso_curve": S::show(&near[d[0]].0), "relation_to_a_zero_or_pole_c": near[d[0]].1, "lambda": S::showk(&lams[d[1]])})
+            },
+            |i| {
+                let d = unrank(i, &rad);
+                let p = &near[d[0]].0;
+                let mut jp = S::rep(p, &lams[d[1]]);
+                guard(|| S::lib_iso_map(&mut jp)).map_err(|m| Fail::new(format!("{}: isogeny_map panicked: {}", name, m)))?;
+                let got = S::pt_of(&jp);
+                let want = ref_iso(&tables, p);
+                if got != want {
+                    return Err(Fail::with(format!("{}: isogeny_map differs from the affine rational map at a point with {} for a zero or pole c of the maps", name, near[d[0]].1), json!({"got": S::show(&got), "want": S::show(&want)})));
+                }
+                Ok(near[d[0]].1)
+            },
+        );
+    }
     // identity encodings and kernel points map to the identity
     let zero = S::K::zero();
     let mut ids: Vec<(String, S::Proj)> = vec![("(0,1,0)".into(), S::raw(&zero, &S::K::one(), &zero)), ("(0,0,0)".into(), S::raw(&zero, &zero, &zero))];
